@@ -103,6 +103,27 @@ CHECKS += [
            "machine-checked here; SPHEvaluator/compiled evaluation not examined"),
 ]
 
+CHECKS += [
+ dict(id='C02',
+      text="Slice: every precomputed pair symbol equals its documented formula -- the code literal of the real "
+           "precomputed_symbols() with the real _set_kernel applied (symbolically executed), run with the symbols it "
+           "reads bound to their documented values and the kernel methods as uninterpreted functions (right method, right "
+           "h, d_/s_ not mixed, nothing else assigned); _set_kernel leaves no placeholder. Closure and order of "
+           "_setup_precomputed/sort_precomputed: bounded exhaustive (1620 sets), labelled bounded, not counted. Kernel "
+           "twins are C08's.",
+      note="the transpiler (compyle), mako glue, Cython and gcc are external: nothing is proved about the transpiled "
+           "text, so 'values left in every property equal executing the Python methods' is claimed only for the symbol "
+           "table and kernel substitution"),
+ dict(id='C03',
+      text="Slice: proved -- the iteration skeleton emitted by the real get_iteration_init/check (literals generalised to "
+           "MIN, MAX; arbitrary convergence predicate) stops at exactly the first pass k >= MIN with converged or k = MAX, "
+           "1 <= k <= MAX, counter reset; destination range selection for every kind of start/stop index and real flag. "
+           "Bounded (labelled, not counted): converged-condition join, MegaGroup._make_data ordering (7380 equation "
+           "lists), emission order of the real do_group for all 2^10 guard valuations x 1-2 dests x 0-2 sources.",
+      note="Cython semantics of the emitted lines and compyle get_parallel_range assumed; the meaning of emitted calls is "
+           "not examined; bounded parts are enumerations of the real functions with stated bounds"),
+]
+
 NOT_APPLICABLE = [
  dict(property_id='C11', reason="round trip runs through numpy.savez/numpy.load/h5py and the compiled ParticleArray constructor; the repository code in between is dict/bytes glue no contract within reach can express (DESIGN.md section 4)"),
  dict(property_id='C12', reason="finite enumeration of scheme options decided by executing scheme code, generating and running; no function-level contract states it (DESIGN.md section 4)"),
@@ -110,7 +131,7 @@ NOT_APPLICABLE = [
 ]
 # properties not yet under a registered check are listed as not applicable
 # "pending" until their check lands, so the manifest is valid at all times
-PENDING = ['C01','C02','C03','C04','C05','C06','C07','C16','C17']
+PENDING = ['C01','C04','C05','C06','C07','C16','C17']
 for p in PENDING:
     if p not in [c['id'] for c in CHECKS]:
         NOT_APPLICABLE.append(dict(property_id=p, reason="check not registered yet in this commit (work in progress, see DESIGN.md section 3 for the planned contracts)"))
